@@ -59,3 +59,12 @@ CORPUS += [
     M("read-not-awaited", L, "        packet = await self._protocol.read(**kwargs)", "        packet = self._protocol.read(**kwargs)"),
     M("n-read-awaited-later", L, "        packet = await self._protocol.read(**kwargs)", "        pending = self._protocol.read(**kwargs)\n        packet = await pending", "S"),
 ]
+# round 9 (growth): a settable read timeout is fine when the setter keeps it positive (class invariant), not otherwise
+CORPUS += [
+    M("n-validated-response-timeout", L, "        self._max_connection_lifetime = None\n", "        self._max_connection_lifetime = None\n        self._response_timeout = 2\n", "S",
+      also=[(L, "                responses.append(await self._read())", "                responses.append(await self._read(timeout=self._response_timeout))"),
+            (L, "    def _disconnect(self) -> None:", "    def set_response_timeout(self, seconds: float) -> None:\n        if not seconds > 0:\n            raise ValueError(\"positive\")\n        self._response_timeout = seconds\n\n    def _disconnect(self) -> None:")]),
+    M("unvalidated-response-timeout", L, "        self._max_connection_lifetime = None\n", "        self._max_connection_lifetime = None\n        self._response_timeout = 2\n",
+      also=[(L, "                responses.append(await self._read())", "                responses.append(await self._read(timeout=self._response_timeout))"),
+            (L, "    def _disconnect(self) -> None:", "    def set_response_timeout(self, seconds: float) -> None:\n        self._response_timeout = seconds\n\n    def _disconnect(self) -> None:")]),
+]
